@@ -255,6 +255,7 @@ def main():
         return
     execs = []
     res = []
+    kept_asts = {}
     for op in sc["ops"]:
         r = {}
         if op["op"] == "create":
@@ -266,7 +267,14 @@ def main():
                 execs.append((created(mk[op["backend"]]()), op["backend"]))
                 who = len(execs) - 1
             exe, backend = execs[who]
-            a = build_ast(backend, op["body"], op["md"])
+            # "reuse": the VERY query object of an earlier identical operation is handed in again (a second .value() on one
+            # ObjectStream): translating a query must not change the caller's query
+            key = json.dumps([backend, op["body"], op["md"]])
+            if op.get("reuse") and key in kept_asts:
+                a = kept_asts[key]
+            else:
+                a = build_ast(backend, op["body"], op["md"])
+                kept_asts[key] = a
             with tempfile.TemporaryDirectory(prefix="fv-c07-") as d:
                 out = Path(d) if op.get("outdir", True) else Path(d) / "missing"
                 c0 = cpp_vars.unique_var_index
